@@ -26,6 +26,11 @@ TEXT = {
   level_text="The same generated UDP histories; after shutdown the UDPMetrics/UDPConnMetrics call log is compared per association with what the sockets saw: one add (with the authenticating id), exactly one remove and nothing after it, every datagram on the association once with wire size, forwarded payload size and status, every reply once with payload and wire size.",
   level_note="Sizes are those measured by the harness sockets; statuses are compared for OK / ERR_CIPHER / ERR_READ_ADDRESS outcomes the generator produces.",
  ),
+ "C05": dict(
+  technique="property-based testing (rapid) against an independent IANA prefix-table oracle, exhaustive IPv4 enumeration in the thorough tier, and generated end-to-end destinations with local sinks and a fake DNS",
+  level_text="RequirePublicIP is compared with an independent classification for structured and random addresses (all 2^32 IPv4 addresses in the thorough tier); end to end, generated destination spellings (literals, mapped, empty/IP-literal domains, hostnames with mixed answers) go through the default TCP dialer and the default UDP validator while sinks listen on every local forbidden address class; for UDP the forbidden datagram is placed at a generated position of a live association.",
+  level_note="Only observed traffic at a sink is a violation; RFC1918/CGNAT/multicast have no local sink and are judged by status; IPv6 is sampled, not enumerated.",
+ ),
 }
 def _na():
     from checks_table import CHECKS
